@@ -134,6 +134,8 @@ pub struct Opts {
     pub trace: bool,
     /// do not call from_config at start (C15 probes config::parse alone)
     pub skip_pool_init: bool,
+    /// record a pooler-state probe at every quiescent point
+    pub probe_each: bool,
 }
 
 impl Default for Opts {
@@ -146,6 +148,7 @@ impl Default for Opts {
             stuck_advance: true,
             trace: false,
             skip_pool_init: false,
+            probe_each: false,
         }
     }
 }
@@ -718,7 +721,9 @@ impl World {
                 for server in 0..pool.servers(shard) {
                     let st = pool.pool_state(shard, server);
                     let a = pool.address(shard, server);
+                    let astats: std::collections::BTreeMap<String, u64> = (*a.stats).clone().into_iter().filter(|(k, _)| k.starts_with("total_")).collect();
                     pools.push(serde_json::json!({
+                        "addr_stats": astats,
                         "db": id.db, "user": id.user, "shard": shard, "server": server,
                         "host": a.host, "role": a.role.to_string(),
                         "connections": st.connections, "idle": st.idle_connections,
@@ -807,6 +812,9 @@ impl World {
         loop {
             quiesce().await;
             self.state_hashes.push(self.state_hash());
+            if self.scenario.opts.probe_each {
+                self.probe();
+            }
             if self.events >= self.scenario.opts.max_events {
                 self.log(Rec::Note { msg: "event cap reached".into() });
                 self.blocked = true;
